@@ -884,7 +884,7 @@ pub fn mutate_scenario(sc: &mut Scenario, seed: u64) {
                                     Policy::Stall { victim: 1 + r.below(8) as u8, nth: r.below(8) as u8, stay: [223u8, 247][r.below(2)] }
                                 } else {
                                     let k = crate::gen::POPULATION_CALLS[r.below(crate::gen::POPULATION_CALLS.len())];
-                                    Policy::StallCall { victim: 1 + r.below(8) as u8, kind: k, nth: r.below(48) as u8, stay: [223u8, 247][r.below(2)] }
+                                    Policy::StallCall { victim: 1 + r.below(8) as u8, kind: k, nth: r.below(48) as u8, stay: [223u8, 247][r.below(2)], hold: [0u8, 2, 6, 20, 60][r.below(5)] }
                                 }
                             }
                             0 => Policy::Walk { stay: [127u8, 223, 247][r.below(3)], target: None, stay_target: 127 },
